@@ -44,6 +44,7 @@ def run(ctx):
     e_done_instances_inert(ctx)
     e_oldest_instance_not_read(ctx)
     c_decoder_registers_first(ctx)
+    c_containers_always_registered(ctx)
 
 
 def _enc_branches(enc):
@@ -604,6 +605,50 @@ def c_decoder_registers_first(ctx):
                   "the members of a %s are decoded before the object is entered into `refs`: a member that refers back to it (a child flow holding its parent's FlowState, an event of "
                   "the parent in a variable) cannot be resolved - the saved state cannot be restored" % (tags[0] if tags else "dataclass instance"), line=i.lineno)
     ctx.floor("C11.c.decoder-registers-first", SER, "decoder branches for objects that hold references", n, 4)
+
+
+def c_containers_always_registered(ctx):
+    """Shared structure is kept only for objects that are entered into `refs`.  A shortcut that writes some lists / dicts out directly (the empty ones, "to keep the JSON small")
+    makes exactly those lose their identity: `$basket = []` passed to a child flow is ONE list live and two lists after a restore.  Decided: for a list and for a dict, every
+    path through encode_to_dict that is not the "already encoded" reference passes the registration."""
+    t = ctx.tree.ast(SER)
+    enc = find_function(t, "encode_to_dict")
+    if enc is None:
+        raise AnalysisError("encode_to_dict not found", anchor=SER + "::encode_to_dict")
+    from ..source import truth as _truth
+    cfg = CFG(enc)
+    regs = [n for n in cfg.nodes if n.kind == "stmt" and isinstance(n.ast, ast.Assign) and isinstance(n.ast.targets[0], ast.Subscript) and src(n.ast.targets[0].value) == "refs"]
+    ctx.floor("C11.c.containers-registered", SER, "registrations in encode_to_dict", len(regs), 1)
+    for kind in ("list", "dict"):
+        def is_kind(a, kind=kind):
+            return isinstance(a, ast.Call) and src(a.func) == "isinstance" and len(a.args) == 2 and src(a.args[0]) == "obj" and kind in [x.id for x in ast.walk(a.args[1]) if isinstance(x, ast.Name)]
+
+        def other_kind(a, kind=kind):
+            return isinstance(a, ast.Call) and src(a.func) == "isinstance" and len(a.args) == 2 and src(a.args[0]) == "obj" and kind not in [x.id for x in ast.walk(a.args[1]) if isinstance(x, ast.Name)] \
+                and "dict" not in src(a.args[1]) if kind == "list" else False
+        facts = {is_kind: True, "obj_id in refs": False, "obj is None": False}
+        seen, stack = set(), [cfg.entry]
+        leak = False
+        while stack:
+            x = stack.pop()
+            if x in seen or x in regs or x is cfg.raise_exit:
+                continue
+            if x is cfg.exit:
+                leak = True
+                break
+            seen.add(x)
+            tv = None
+            if x.kind == "test" and isinstance(x.ast, ast.expr):
+                tv = _truth(x.ast, facts)
+                if tv is None and any(isinstance(a, ast.Call) and src(a.func) == "isinstance" and src(a.args[0]) == "obj" and not is_kind(a) for a in ast.walk(x.ast)) \
+                        and not any(is_kind(a) for a in ast.walk(x.ast)):
+                    tv = False      # a test for ANOTHER type is false for this kind
+            stack.extend(m for m, lab in x.succ if not (tv is not None and lab in (True, False) and lab is not tv))
+        ok = bool(regs) and not leak
+        ctx.check("C11.c.containers-registered", SER, "encode_to_dict", "every %s is entered into refs" % kind, ok,
+                  "no path encodes a %s without registering it" % kind if ok else
+                  "some %ss are written out without being entered into `refs` (a shortcut before the registration): such a %s shared by two flows comes back as two independent "
+                  "objects - in-place updates made by one flow after the restore are invisible to the other" % (kind, kind), line=enc.lineno)
 
 
 def e_done_instances_inert(ctx):
